@@ -811,7 +811,9 @@ func ruleListingReadsNoRunTimeState(c *Ctx, rule string) {
 	}
 	var bad []string
 	for f := range c.Reachable(fn) {
-		if !c.isRepoFn(f) {
+		// the listing code proper: packages files and algo (the call graph also reaches error and formatting methods of other
+		// packages through interface calls, which say nothing about the listing)
+		if !c.isRepoFn(f) || f.Pkg == nil || !(strings.HasSuffix(f.Pkg.Pkg.Path(), "/files") || strings.HasSuffix(f.Pkg.Pkg.Path(), "/algo")) {
 			continue
 		}
 		instrsOf(f, func(in ssa.Instruction) {
@@ -908,4 +910,211 @@ func ruleRenumberingComplete(c *Ctx, rule string) {
 	}
 	ob := r.Ob(rule, "renumbering passes cover all program-counter fields", "")
 	ob.OKnt(fmt.Sprintf("%d passes outside adjust() that rewrite program counters of existing instructions", n))
+}
+
+// ---------------------------------------------------------------------------------------------
+// Lexer worlds with the state AND the character fixed.
+
+type lexerAnchors struct {
+	fn       *ssa.Function
+	statePhi *ssa.Phi
+	readCall *ssa.Call
+	names    map[string]string // value -> name
+	byName   map[string]constant.Value
+	loop     map[*ssa.BasicBlock]bool
+	err      string
+}
+
+func (c *Ctx) lexerAnchors() *lexerAnchors {
+	la := &lexerAnchors{names: map[string]string{}, byName: map[string]constant.Value{}}
+	la.fn = c.Method("ast", "Lexer", "getNextToken")
+	read := c.Method("ast", "Lexer", "read")
+	var stateT types.Type
+	if p := c.Pkgs["ast"]; p != nil {
+		for _, obj := range p.TypesInfo.Defs {
+			if cst, ok := obj.(*types.Const); ok {
+				if nt, ok := cst.Type().(*types.Named); ok && nt.Obj().Name() == "TokenState" {
+					stateT = nt
+					la.names[cst.Val().ExactString()] = cst.Name()
+					la.byName[cst.Name()] = cst.Val()
+				}
+			}
+		}
+	}
+	if la.fn == nil || read == nil || stateT == nil {
+		la.err = "ast.(*Lexer).getNextToken / read / TokenState not found"
+		return la
+	}
+	uses := func(p *ssa.Phi) int {
+		n := 0
+		for _, ref := range *p.Referrers() {
+			if b, ok := ref.(*ssa.BinOp); ok && (b.Op == token.EQL || b.Op == token.NEQ) {
+				n++
+			}
+		}
+		return n
+	}
+	instrsOf(la.fn, func(in ssa.Instruction) {
+		if p, ok := in.(*ssa.Phi); ok && types.Identical(p.Type(), stateT) {
+			if la.statePhi == nil || uses(p) > uses(la.statePhi) {
+				la.statePhi = p
+			}
+		}
+	})
+	if la.statePhi == nil {
+		la.err = "no loop-carried variable of type TokenState in getNextToken"
+		return la
+	}
+	la.loop = innermostLoop(la.fn, la.statePhi.Block())
+	for _, in := range la.statePhi.Block().Instrs {
+		if call, ok := in.(*ssa.Call); ok && call.Call.StaticCallee() == read {
+			la.readCall = call
+		}
+	}
+	if la.loop == nil || la.readCall == nil {
+		la.err = "the scanning loop does not start by reading a character"
+	}
+	return la
+}
+
+// world fixes state and character and reports the states that can reach the loop head again, and whether the loop can be left.
+func (la *lexerAnchors) world(state constant.Value, ch rune) (next map[string]bool, leaves bool, unknownNext bool) {
+	w := &World{Fn: la.fn, Seed: func(v ssa.Value) (constant.Value, bool) {
+		if v == ssa.Value(la.statePhi) {
+			return state, true
+		}
+		if v == ssa.Value(la.readCall) {
+			return constant.MakeInt64(int64(ch)), true
+		}
+		return nil, false
+	}, Interp: func(f *ssa.Function) bool { return f.Pkg == la.fn.Pkg && pureFunc(f, 0) }}
+	w.Call = func(cl *ssa.Call, get func(ssa.Value) wLat) (wLat, bool) {
+		// the character predicates of package unicode, on the one character this world is about
+		sc := cl.Call.StaticCallee()
+		if sc == nil || sc.Pkg == nil || sc.Pkg.Pkg.Path() != "unicode" || len(cl.Call.Args) != 1 {
+			return wLat{}, false
+		}
+		a := get(cl.Call.Args[0])
+		if a.k != 1 {
+			return wLat{}, false
+		}
+		r, _ := constant.Int64Val(a.v)
+		switch sc.Name() {
+		case "IsSpace":
+			return wBool(r == ' ' || r == '\t' || r == '\n' || r == '\r' || r == '\v' || r == '\f'), true
+		case "IsDigit":
+			return wBool(r >= '0' && r <= '9'), true
+		case "IsLetter":
+			return wBool((r >= 'a' && r <= 'z') || (r >= 'A' && r <= 'Z')), true
+		}
+		return wLat{}, false
+	}
+	w.Run()
+	next = map[string]bool{}
+	head := la.statePhi.Block()
+	for i, p := range head.Preds {
+		if !la.loop[p] || !w.Reach[p] || !w.Edge[[2]*ssa.BasicBlock{p, head}] {
+			continue
+		}
+		l := w.get(la.statePhi.Edges[i])
+		if l.k == 1 {
+			next[la.names[l.v.ExactString()]] = true
+		} else {
+			unknownNext = true
+		}
+	}
+	for b := range la.loop {
+		if !w.Reach[b] {
+			continue
+		}
+		for _, s := range b.Succs {
+			if !la.loop[s] && w.Edge[[2]*ssa.BasicBlock{b, s}] {
+				leaves = true
+			}
+		}
+	}
+	return
+}
+
+// C15.R7: a newline ends a line comment, however short the comment is.
+func ruleNewlineEndsLineComment(c *Ctx, rule string) {
+	r := c.R
+	la := c.lexerAnchors()
+	if la.err != "" {
+		r.Ob(rule, "anchor: the lexer's scanning loop", "").Und(la.err)
+		return
+	}
+	n := 0
+	for _, name := range sortedKeys(la.byName) {
+		// the states of a comment that is not (yet) a block comment
+		if !strings.Contains(name, "COMMENT") || strings.Contains(name, "BLOCK") {
+			continue
+		}
+		n++
+		ob := r.Ob(rule, "getNextToken: in state "+name+" a newline ends the token", c.pos(la.statePhi.Pos()))
+		next, leaves, unk := la.world(la.byName[name], '\n')
+		switch {
+		case len(next) == 0 && !unk && leaves:
+			ob.OKnt("with the state fixed to " + name + " and the character to '\\n' the loop is left and cannot go round")
+		case len(next) > 0 || unk:
+			ob.Bad(fmt.Sprintf("with the state fixed to %s and the character to '\\n' the loop goes on (next state %v): the newline is taken into the comment, which then runs to the end of the following line - an empty comment `--` swallows the next line of the program", name, sortedKeys(next)))
+		default:
+			ob.Und("the loop neither goes on nor is left")
+		}
+	}
+	r.Floor(rule, "states of a line comment", n, 2)
+}
+
+// C15.R8: inside the end marker of a block comment, the marker's first character starts the marker again.
+func ruleBlockCommentMarkerRestarts(c *Ctx, rule string) {
+	r := c.R
+	la := c.lexerAnchors()
+	if la.err != "" {
+		r.Ob(rule, "anchor: the lexer's scanning loop", "").Und(la.err)
+		return
+	}
+	// the body state and the first character of the end marker: in the body state, the one character that leads to another state
+	var body, first string
+	var firstCh rune
+	for _, name := range sortedKeys(la.byName) {
+		if !strings.Contains(name, "BLOCKCOMMENT") {
+			continue
+		}
+		for _, ch := range []rune{')', '-', ']', '}', '*', '/'} {
+			next, _, _ := la.world(la.byName[name], ch)
+			other, _, _ := la.world(la.byName[name], 'x')
+			if len(next) == 1 && len(other) == 1 && other[name] && !next[name] {
+				if body == "" {
+					body, firstCh = name, ch
+					for k := range next {
+						first = k
+					}
+				}
+			}
+		}
+	}
+	if body == "" {
+		r.Ob(rule, "anchor: the body state of a block comment and the first character of its end marker", "").Und("not found")
+		return
+	}
+	n := 0
+	for _, name := range sortedKeys(la.byName) {
+		if !strings.Contains(name, "BLOCKCOMMENT") || name == body {
+			continue
+		}
+		// a recognition state: the loop goes on from it on an ordinary character
+		other, _, _ := la.world(la.byName[name], 'x')
+		if len(other) == 0 {
+			continue
+		}
+		n++
+		ob := r.Ob(rule, fmt.Sprintf("getNextToken: in state %s a %q starts the end marker again", name, string(firstCh)), c.pos(la.statePhi.Pos()))
+		next, _, unk := la.world(la.byName[name], firstCh)
+		if len(next) == 1 && next[first] && !unk {
+			ob.OKnt("next state " + first)
+		} else {
+			ob.Bad(fmt.Sprintf("with the state fixed to %s and the character to %q the next state is %v, not %s: a comment whose text ends in the beginning of its own end marker (`--( x )-)--`) is not closed, so what a comment contains decides how the program is read", name, string(firstCh), sortedKeys(next), first))
+		}
+	}
+	r.Floor(rule, "recognition states of the block comment's end marker", n, 2)
 }
